@@ -9,6 +9,7 @@ The pinned tree's one-time `key_bundle` (`keyBundleOnetimeOrig`: plain `pop()`) 
 property (`c38_orig_violates`); the repaired function (`keyBundleOnetime`, after the `fix:` commit)
 satisfies it (`c38_get_sound`).
 -/
+import P2.Extracted.C38
 import P2.Model.KeyRegistry
 
 namespace P2.C38
@@ -562,5 +563,30 @@ example : (reg3.longterm 1).map (·.map (·.prekey)) = some [1, 2, 3] := by deci
 example : (match reg3.keyBundleLongterm 1 1000 with | .ok (some b) => b.prekey | _ => 0) = 3 := by decide
 example : (match reg3.keyBundleLongterm 1 6500 with | .error .expired => true | _ => false) = true := by decide
 example : valid (lb 2 5000) 1000 := ⟨by decide, by decide, by decide⟩
+
+/-! ## Tie to the current source text (DESIGN.md §4.2) -/
+
+/-- **The model is the source.** `./check` re-extracts these fragments from /repo on every run
+    (regular expressions anchored on the surrounding statements; a fragment that no longer matches is
+    itself a failure of the proof stage). They are `Lifetime::verify`'s two strict comparisons (`lifetimeOk`), `Ord for Lifetime` by `not_after`, the shape of `latest_key_bundle` (EVERY bundle's lifetime is verified before it can become or replace the candidate; strictly later `not_after` replaces; first valid one starts — `latestStep`), `KeyBundle::verify` of both bundle kinds (lifetime, then XEdDSA over the signed pre-key with the identity key — `verify`), `add_*` verifying first, the repaired one-time pop re-checking the lifetime (`popValidRev`), the long-term query (`keyBundleLongterm`) and `remove_expired`'s filter. Any edit of one of these
+    operators / operands / call shapes changes the extracted text and this theorem stops checking —
+    before a single input is generated. -/
+theorem c38_source_ops :
+    P2.Extracted.C38.lifetimeCond = "self.not_before < elapsed && elapsed < self.not_after"
+    ∧ P2.Extracted.C38.lifetimeOrd = "self.not_after.cmp(&other.not_after)"
+    ∧ P2.Extracted.C38.latestSkip = "bundle.lifetime().verify().is_err()"
+    ∧ P2.Extracted.C38.latestCmp = "bundle.lifetime() > current_bundle.lifetime()"
+    ∧ P2.Extracted.C38.latestFirst = "latest = Some(bundle);"
+    ∧ P2.Extracted.C38.addLongtermFirst = "key_bundle.verify()?;"
+    ∧ P2.Extracted.C38.addOnetimeFirst = "key_bundle.verify()?;"
+    ∧ P2.Extracted.C38.onetimePopCond = "bundle.lifetime().verify().is_ok()"
+    ∧ P2.Extracted.C38.longtermSelect = "latest_key_bundle(bundles).cloned()"
+    ∧ P2.Extracted.C38.removeExpiredFilters = "|bundle| bundle.verify().is_ok()"
+    ∧ P2.Extracted.C38.verifyOneTimeLifetime = "self.signed_prekey.verify_lifetime()?;"
+    ∧ P2.Extracted.C38.verifyOneTimeSig = "xeddsa_verify( self.signed_prekey.as_bytes(), &self.identity_key, &self.prekey_signature, )?;"
+    ∧ P2.Extracted.C38.verifyLongTermLifetime = "self.signed_prekey.verify_lifetime()?;"
+    ∧ P2.Extracted.C38.verifyLongTermSig = "xeddsa_verify( self.signed_prekey.as_bytes(), &self.identity_key, &self.prekey_signature, )?;"
+    ∧ P2.Extracted.C38.longtermExpiredCond = "!bundles.is_empty() && valid_bundle.is_none()" :=
+  ⟨rfl, rfl, rfl, rfl, rfl, rfl, rfl, rfl, rfl, rfl, rfl, rfl, rfl, rfl, rfl⟩
 
 end P2.C38
